@@ -547,7 +547,13 @@ func vfMsgInvariants(ref *vfMsgRef, pre, post *vfTopicSnap, op vfMsgOp) []vfXVio
 				continue
 			}
 			if p, ok := preSubs[u]; ok && !p.Deleted && (p.Read < 0 || p.Read > p.Recv) {
-				continue // already out of bounds before this step: reported at the step that introduced it
+				// already out of bounds before this step: reported at the step that introduced it. A receipt of
+				// the same user which is accepted now (the received mark moves) is still held to the bounds: an
+				// accepted mark is raised to the read mark at least (seed C09-m5).
+				if fmt.Sprintf("u%d", op.Actor) == u && op.Kind == "note" && s.Recv != p.Recv && (s.Read > s.Recv || s.Recv > last) {
+					bad("C09:marks-out-of-bounds:"+where+":"+op.Kind+vfNoteKind(op)+":accepted-below-read", fmt.Sprintf("after %s %s marks of %s: read=%d recv=%d last=%d (received mark moved %d->%d and is still below the read mark)", op, where, u, s.Read, s.Recv, last, p.Recv, s.Recv))
+				}
+				continue
 			}
 			if p, ok := pre.Subs[u]; ok && !p.Deleted && (p.Read < 0 || p.Read > p.Recv) {
 				continue
@@ -949,6 +955,48 @@ func init() {
 			}, FaultDepth: func(th bool) int { return 2 }}
 	}
 	_ = json.Marshal
+	// The same search started from a non-initial state (seed C09-m5): u2 has read up to 3, the topic was
+	// unloaded and u2 attached again - the loaded topic then holds the marks as the store has them.
+	for _, thorough := range []bool{false, true} {
+		// u2 has neither read nor received anything yet: its read mark can get ahead of the stored received mark
+		a := append(append([]vfMsgOp{}, vfMsgAlphabet(thorough)...), vfMsgOp{Kind: "note", Actor: 2, What: "read", Seq: 3},
+			vfMsgOp{Kind: "note", Actor: 2, What: "recv", Seq: 1}, vfMsgOp{Kind: "note", Actor: 2, What: "recv", Seq: 3})
+		var prefix []int
+		for _, want := range []string{vfMsgOp{Kind: "note", Actor: 2, What: "read", Seq: 3}.String(), vfMsgOp{Kind: "reload"}.String(), vfMsgOp{Kind: "sub", Actor: 2}.String()} {
+			for i := range a {
+				if a[i].String() == want {
+					prefix = append(prefix, i)
+					break
+				}
+			}
+		}
+		if len(prefix) != 3 {
+			panic("msg-rr: prefix operations not in the alphabet")
+		}
+		name := "msg-rr"
+		if thorough {
+			name = "msg-rr-thorough"
+		}
+		base := vfMsgExec(a)
+		pf := prefix
+		vfXModels[name] = &vfXModel{Name: name, NumOps: len(a), OpName: func(i int) string { return a[i].String() },
+			Exec: func(hist []int, last bool) vfXResult {
+				return base(append(append([]int{}, pf...), hist...), last)
+			}, MaxDepth: func(th bool) int {
+				if th {
+					return 3
+				}
+				return 2
+			}}
+	}
+}
+
+func TestVerifC09MsgRR(t *testing.T) {
+	n := "msg-rr"
+	if vfev.Thorough() {
+		n = "msg-rr-thorough"
+	}
+	vfXSearch(t, "C09", "msg-after-reload", n)
 }
 
 func vfMsgModelName() string {
